@@ -5,14 +5,12 @@ go 1.22.0
 toolchain go1.23.5
 
 require (
+	github.com/emersion/go-sasl v0.0.0-20220912192320-0145f2c60ead
 	github.com/fluffle/goirc v0.0.0-00010101000000-000000000000
 	golang.org/x/net v0.34.0
 	golang.org/x/tools v0.29.0
 )
 
-require (
-	github.com/emersion/go-sasl v0.0.0-20220912192320-0145f2c60ead // indirect
-	github.com/golang/mock v1.5.0 // indirect
-)
+require github.com/golang/mock v1.5.0 // indirect
 
 replace github.com/fluffle/goirc => /repo
